@@ -64,6 +64,15 @@ func c18Request(kind, field string, size int) vlib.Req {
 		default:
 			h["Access-Control-Request-Method"] = []string{"P" + pad(size-1)}
 		}
+	case "origin-elements":
+		if unit == "" {
+			unit = " "
+		}
+		els := make([]string, size)
+		for i := range els {
+			els[i] = "https://a.example"
+		}
+		h["Origin"] = []string{strings.Join(els, unit)}
 	case "acrm-lines":
 		if unit == "" {
 			unit = "PUT"
@@ -239,6 +248,7 @@ func checkC18(c *vlib.Ctx) (string, string) {
 		{"acrh-lines:x-a;q=1", countLadder}, {"acrh-lines:x@y, (z)", countLadder}, {"acrh-lines:\x00", countLadder},
 		{"acrh-elements:x-a|x-b", countLadder}, {"acrh-elements:x-a|X-B|x-zz", countLadder}, {"acrh-elements:Authorization", countLadder},
 		{"acrh-empty-elements", countLadder},
+		{"origin-elements", countLadder}, {"origin-elements:,", countLadder}, {"origin-elements:, ", countLadder}, {"origin-elements:\t", countLadder},
 		{"acrm-lines", countLadder}, {"acrm-lines:put", countLadder}, {"acrm-lines:Put", countLadder}, {"acrm-lines:query", countLadder}, {"origin-lines", countLadder}, {"acrpn-lines", countLadder},
 		{"acrh-lines", countLadder}, {"acrh-lines:X-A", countLadder}, {"acrh-lines:x-zz", countLadder}, {"acrh-lines:empty", countLadder}, {"acrh-lines:x-a,x-b", countLadder},
 	}
